@@ -6,7 +6,7 @@ import json, os, shutil, subprocess, sys, xml.etree.ElementTree as ET
 prop, n = sys.argv[1], sys.argv[2]
 wt, mut = f"/tmp/wt_{prop}", f"/tmp/mut_{prop}"
 prop_id = prop.rstrip("abcdefgh")
-sid = f"{prop.rstrip(chr(97)+chr(98)+chr(99))}-{n}"
+sid = f"{prop.rstrip('abcdefgh')}-{n}"
 base = json.load(open("/root/.vp/BASELINE.json"))
 stable = set(base["stable_pass"])
 
